@@ -573,6 +573,10 @@ class Ref:
         inst = self.insts[op["inst"]]
         return {"res": None, "exc": None, "execs": [], "state": inst.state}
 
+    def op_drop(self, op, epoch):
+        self.insts.pop(op["inst"], None)
+        return {"res": None, "exc": None, "execs": [], "state": None, "noop": True}
+
     def op_noop(self, op, epoch):
         return {"res": None, "exc": None, "execs": [], "state": None, "noop": True}
 
